@@ -35,27 +35,29 @@ Definition add_score (dbg : bool) (tag : N) (s : Q) (acc : Q * list dtoken) : Q 
 
 Definition eps_one (w : Q) : bool := Qeq_bool w 1 || Qltb (Qabs (w - 1)) c_epsilon.
 
+Definition word_part (dbg : bool) (c : cand) (a : Q * list dtoken) : Q * list dtoken :=
+  if c_sb c && c_eb c then add_score dbg t_word c_scoreWordMatch a
+  else if c_sb c || c_eb c then add_score dbg t_partword c_scorePartialWordMatch a
+  else a.
+Definition kind_part (dbg : bool) (c : cand) (a : Q * list dtoken) : Q * list dtoken :=
+  match c_kind c with
+  | KNone => a
+  | KFile s e inner =>
+      if s && e then add_score dbg t_base c_scoreBase a
+      else if s || e then add_score dbg t_edgebase ((c_scoreBase + c_scorePartialBase) / 2) a
+      else if inner then add_score dbg t_innerbase c_scorePartialBase a
+      else a
+  | KSym s e k =>
+      let a' := if s && e then add_score dbg t_symbol c_scoreSymbol a
+                else if s || e then add_score dbg t_edgesymbol ((c_scoreSymbol + c_scorePartialSymbol) / 2) a
+                else add_score dbg t_overlapsymbol c_scorePartialSymbol a in
+      match k with Some q => add_score dbg t_kind q a' | None => a' end
+  end.
+Definition weight_part (dbg : bool) (c : cand) (a : Q * list dtoken) : Q * list dtoken :=
+  if eps_one (c_weight c) then a
+  else (fst a * c_weight c, if dbg then snd a ++ [(t_boost, c_weight c)] else snd a).
 Definition score_cand (dbg : bool) (c : cand) : Q * list dtoken :=
-  let a0 : Q * list dtoken := (0, []) in
-  let a1 := if c_sb c && c_eb c then add_score dbg t_word c_scoreWordMatch a0
-            else if c_sb c || c_eb c then add_score dbg t_partword c_scorePartialWordMatch a0
-            else a0 in
-  let a2 :=
-    match c_kind c with
-    | KNone => a1
-    | KFile s e inner =>
-        if s && e then add_score dbg t_base c_scoreBase a1
-        else if s || e then add_score dbg t_edgebase ((c_scoreBase + c_scorePartialBase) / 2) a1
-        else if inner then add_score dbg t_innerbase c_scorePartialBase a1
-        else a1
-    | KSym s e k =>
-        let a := if s && e then add_score dbg t_symbol c_scoreSymbol a1
-                 else if s || e then add_score dbg t_edgesymbol ((c_scoreSymbol + c_scorePartialSymbol) / 2) a1
-                 else add_score dbg t_overlapsymbol c_scorePartialSymbol a1 in
-        match k with Some q => add_score dbg t_kind q a | None => a end
-    end in
-  if eps_one (c_weight c) then a2
-  else (fst a2 * c_weight c, if dbg then snd a2 ++ [(t_boost, c_weight c)] else snd a2).
+  weight_part dbg c (kind_part dbg c (word_part dbg c (0, []))).
 
 (** scoreLine: the best candidate (strictly greater than the running best, which starts at 0) *)
 Definition better (best : Q * list dtoken) (x : Q * list dtoken) : Q * list dtoken :=
